@@ -243,8 +243,10 @@ func omittable(tp clit.Template) []*pflag.Flag {
 		if seen[f.Name] || f.Name == "help" || passed(f) || passedStorage[f.Value] {
 			return
 		}
-		switch f.Value.Type() {
-		case "string", "int", "int64", "float64", "bool":
+		// every option whose default is one printable value, whatever the Go type behind it (an
+		// option with a hand-written value type documents and takes its default like any other);
+		// list-valued options print their default as [a,b], which is not what one types
+		if ty := f.Value.Type(); !strings.HasSuffix(ty, "Slice") && !strings.HasSuffix(ty, "Array") && ty != "count" && !strings.HasPrefix(ty, "stringTo") {
 			seen[f.Name] = true
 			out = append(out, f)
 		}
